@@ -2372,7 +2372,10 @@ bool NifFile::GetNodeTransformToGlobal(const std::string& nodeName, MatTransform
 
 		MatTransform xform = node->GetTransformToParent();
 		NiNode* parent = GetParentNode(node);
-		while (parent) {
+
+		// Guard against cyclic parent chains in damaged files
+		std::set<NiNode*> visited{node};
+		while (parent && visited.insert(parent).second) {
 			xform = parent->GetTransformToParent().ComposeTransforms(xform);
 			parent = GetParentNode(parent);
 		}
